@@ -746,6 +746,77 @@ def run_sibling_new(w) -> None:
         loaded.unload()
 
 
+ALIASED_SOURCE = '''
+import icontract
+
+
+def _guarded(self, name, value):
+    object.__setattr__(self, name, value)
+
+
+def _measure(self):
+    return abs(self.x)
+
+
+@icontract.invariant(lambda self: HUB.inv("on_setattr", self) and self.x > 0, check_on=icontract.InvariantCheckEvent.SETATTR)
+class OnSetattr{base}:
+    __setattr__ = _guarded  # a function defined elsewhere, under another name
+
+    def __init__(self):
+        object.__setattr__(self, "x", 1)
+
+    def get(self):
+        return self.x
+
+
+@icontract.invariant(lambda self: HUB.inv("on_call", self) and self.x > 0)
+class OnCall{base}:
+    __len__ = _measure  # likewise for the other special methods
+
+    def __init__(self):
+        self.x = 1
+
+    size = _measure
+'''
+
+
+def run_aliased_members(w) -> None:
+    """Special methods bound to functions that were defined under another name: the event they stand for decides which invariants
+    surround them, not the name the function happens to carry."""
+    import icontract  # pylint: disable=import-outside-toplevel
+
+    for base in ("", "(icontract.DBC)"):
+        loaded = prog.load_source(ALIASED_SOURCE.replace("{base}", base), w.scratch())
+        mod, hub = loaded.module, loaded.hub
+        try:
+            for tag, setup, op, want, want_invs in (
+                    ("setattr-alias-violating", lambda: mod.OnSetattr(), lambda o: setattr(o, "x", -1), "violation", None),
+                    ("setattr-alias-fine", lambda: mod.OnSetattr(), lambda o: setattr(o, "x", 5), "returned", ["on_setattr", "on_setattr"]),
+                    ("method-of-setattr-only-class", lambda: mod.OnSetattr(), lambda o: o.get(), "returned", []),
+                    ("len-alias-on-broken-object", lambda: mod.OnCall(), lambda o: (o.__dict__.__setitem__("x", -2), len(o)), "violation", None),
+                    ("len-alias-fine", lambda: mod.OnCall(), len, "returned", ["on_call", "on_call"]),
+                    ("method-alias-fine", lambda: mod.OnCall(), lambda o: o.size(), "returned", ["on_call", "on_call"])):
+                obj = setup()
+                hub.reset()
+                try:
+                    op(obj)
+                    outcome = "returned"
+                except icontract.ViolationError:
+                    outcome = "violation"
+                except BaseException as err:  # pylint: disable=broad-except
+                    outcome = "raise {}: {}".format(type(err).__name__, str(err)[:120])
+                invs = [e.id for e in hub.events if e.kind == "inv"]
+                w.count("operations")
+                w.count("aliased_member_operations")
+                w.case(("aliased-member", tag, base))
+                if outcome != want or (want_invs is not None and invs != want_invs):
+                    w.violation("C03/member-bound-under-another-name-surrounded-by-wrong-invariants", "{} ({}): {} with invariant evaluations {} "
+                                "(expected {}{})".format(tag, base or "plain class", outcome, invs, want,
+                                                       "" if want_invs is None else " with " + str(want_invs)), {"aliased": tag, "base": base})
+        finally:
+            loaded.unload()
+
+
 def run_factory_new(w) -> None:
     """__new__ of a class without __init__ acting as a factory for its subclasses (which may have constructors)."""
     # (only on the contract-inheriting base: invariants on plain subclasses of invariant-carrying classes are a silent zone)
@@ -794,6 +865,7 @@ def run(w) -> None:
         run_factory_new(w)
         run_nested_new(w)
         run_sibling_new(w)
+        run_aliased_members(w)
     n = 12000 if w.tier == "thorough" else 1200
     flavours = ["plain", "plain", "plain", "slots", "dataclass", "frozen", "own-new", "namedtuple"]
     for i in range(n):
@@ -824,6 +896,9 @@ def replay(case, w) -> None:
         return
     if "sibling_new" in case:
         run_sibling_new(w)
+        return
+    if "aliased" in case:
+        run_aliased_members(w)
         return
     plans = plans_from_json(case["plans"])
     oracle = Oracle(plans)
